@@ -39,6 +39,7 @@ func init() {
 			{"R31.2", "the queryable timeframe divides the duration", ruleQueryableDivides},
 			{"R31.3", "the nominal duration is only compared with / divided by constants", ruleNoNominalDurationArithmetic},
 			{"R31.4", "calendar branches of Truncate/Ceil build boundaries from date fields, not by adding a duration", ruleCalendarBranchesUseCalendar},
+			{"R31.5", "week windows use the ISO year together with the ISO week", ruleISOWeekBothResults},
 		},
 	})
 }
